@@ -178,6 +178,8 @@ class Ctx(object):
         self.is_nontrivial = False
         self.excluded = []
         self.skipped = None
+        self.extra_evals = 0          # a body that runs a whole batch of enumerated cases
+        self.extra_nontrivial = 0     # (distinct by construction) accounts for them here
 
     def cls(self, *labels):
         for l in labels:
@@ -316,12 +318,13 @@ def run_task(args):
     t0 = time.time()
     res = {"sub": sid, "shard": shard, "evaluations": 0, "nontrivial": set(),
            "labels": {}, "excluded": {}, "known_excluded": {}, "first": [], "low": [],
-           "failure": None, "failures": {}, "skipped_budget": 0, "error": None, "exhaustive": False,
+           "failure": None, "failures": {}, "nontrivial_extra": 0, "skipped_budget": 0, "error": None, "exhaustive": False,
            "planned": n}
     state = {"failing": {}, "t_fail": None, "last_fail": None}
 
     def account(case, ctx, d):
-        res["evaluations"] += 1
+        res["evaluations"] += 1 + ctx.extra_evals
+        res["nontrivial_extra"] += ctx.extra_nontrivial
         for l in ctx.labels:
             res["labels"][l] = res["labels"].get(l, 0) + 1
         for l in ctx.excluded:
@@ -351,7 +354,8 @@ def run_task(args):
         if "known" in fail:
             res["known_excluded"][fail["known"]] = res["known_excluded"].get(fail["known"], 0) + 1
             return
-        fail["case"] = _jsonable(case)
+        # a batch body may point at the single failing member of its batch
+        fail["case"] = _jsonable(fail.get("details", {}).pop("replay_case", None) or case)
         state["failing"][d] = fail
         state["last_fail"] = fail
         if state["t_fail"] is None:
@@ -521,14 +525,16 @@ def run_property(pid, tier, seed, only=None, procs=None, budget_s=None, scale=1.
     samples = []
     skipped_budget = 0
     exhaustive_subs = []
+    extra_total = 0
     enum_seen = set()
     for r in results:
         if r["error"]:
             errors.append(r["error"])
-        ps = per_sub.setdefault(r["sub"], {"evaluations": 0, "distinct_nontrivial": set(),
+        ps = per_sub.setdefault(r["sub"], {"evaluations": 0, "distinct_nontrivial": set(), "extra": 0,
                                            "wall_s": 0.0, "exhaustive": True, "enum": find_sub(r["sub"]).enum is not None})
         ps["evaluations"] += r["evaluations"]
         ps["distinct_nontrivial"] |= r["nontrivial"]
+        ps["extra"] += r["nontrivial_extra"]
         ps["wall_s"] = max(ps["wall_s"], r["wall_s"])
         ps["exhaustive"] = ps["exhaustive"] and r["exhaustive"]
         evaluations += r["evaluations"]
@@ -553,7 +559,8 @@ def run_property(pid, tier, seed, only=None, procs=None, budget_s=None, scale=1.
             violations.append((r["sub"], path, f["msg"]))
     for sid, ps in per_sub.items():
         nontrivial |= {sid.encode() + d for d in ps["distinct_nontrivial"]}
-        ps["distinct_nontrivial"] = len(ps["distinct_nontrivial"])
+        extra_total += ps["extra"]
+        ps["distinct_nontrivial"] = len(ps["distinct_nontrivial"]) + ps.pop("extra")
         ps["wall_s"] = round(ps["wall_s"], 2)
         if ps["enum"] and ps["exhaustive"]:
             exhaustive_subs.append(sid)
@@ -573,7 +580,7 @@ def run_property(pid, tier, seed, only=None, procs=None, budget_s=None, scale=1.
         "property_id": pid, "tier": tier, "seed": int(seed), "level": "exploration",
         "coverage": {
             "evaluations": int(evaluations + nreg),
-            "distinct_nontrivial": int(len(nontrivial)),
+            "distinct_nontrivial": int(len(nontrivial) + extra_total),
             "rule": info["rule"],
             "samples": samples[:40],
             "exhaustive": bool(exhaustive_subs) and len(exhaustive_subs) == len(per_sub),
